@@ -154,6 +154,75 @@ func streamUserOp(o *Out, r *Rng, tier string) {
 			}
 		}
 	}
+	_ = reRegister(o, r, users, builtins)
+}
+
+// reRegister: the registries are live — registering an alias again replaces its priority (associativity can only be switched ON:
+// rightOp is never cleared), and registering a longer operator makes it win the longest match from then on. Expressions that were
+// evaluated BEFORE the registration are evaluated again after it and must follow the new table.
+func reRegister(o *Out, r *Rng, users []userOp, builtins []userOp) []userOp {
+	root := ajson.NullNode("")
+	eval := func(text string, ops []userOp, vals []float64, hist string) {
+		obs := obsRPN(text)
+		o.Emit("rpnu\t"+hexOrDash([]byte(text)), obs, "u"+text+obs)
+		want := climbValue(ops, vals)
+		o.Check("C09", "user-operators")
+		res, err := ajson.Eval(root, text)
+		if err != nil {
+			o.Fail("C09", "user-operators", "Eval fails on a chain of registered operators", hist+"\n"+text, fmt.Sprint(want), err.Error())
+			return
+		}
+		got, gerr := res.GetNumeric()
+		if gerr != nil || math.Float64bits(got) != math.Float64bits(want) {
+			o.Fail("C09", "user-operators", "value differs from the grouping the CURRENT declared precedence and associativity determine", hist+"\n"+text, fmt.Sprint(want), fmt.Sprint(got, gerr))
+		}
+	}
+	sub := func(a, b float64) float64 { return a - b }
+	mul := builtins[2]
+	register := func(alias string, prio int, right bool, fn func(a, b float64) float64) {
+		ajson.AddOperation(alias, uint8(prio), right, func(left, rightN *ajson.Node) (*ajson.Node, error) {
+			a, err := left.GetNumeric()
+			if err != nil {
+				return nil, err
+			}
+			b, err := rightN.GetNumeric()
+			if err != nil {
+				return nil, err
+			}
+			return ajson.NumericNode("", fn(a, b)), nil
+		})
+		rb := "0"
+		if right {
+			rb = "1"
+		}
+		o.Emit("register\t"+hexOrDash([]byte(alias))+"\t"+strconv.Itoa(prio)+"\t"+rb, "ok", "")
+		o.Emit("regdump", obsRegistry(), "")
+	}
+	// (a) the same alias registered again with another priority: the same text now groups the other way
+	hist := "AddOperation(\"zq\", 6, false, sub)"
+	register("zq", 6, false, sub)
+	zq := userOp{"zq", 6, false, sub}
+	eval("10 zq 2 * 3", []userOp{zq, mul}, []float64{10, 2, 3}, hist)
+	hist += "; Eval; AddOperation(\"zq\", 4, false, sub)"
+	register("ZQ", 4, false, sub)
+	zq.prio = 4
+	eval("10 zq 2 * 3", []userOp{zq, mul}, []float64{10, 2, 3}, hist)
+	eval("10  zq 2*3", []userOp{zq, mul}, []float64{10, 2, 3}, hist)
+	// (b) associativity switched on by a second registration
+	hist += "; AddOperation(\"zq\", 4, true, sub)"
+	register("zq", 4, true, sub)
+	zq.right = true
+	eval("10 zq 2 zq 3", []userOp{zq, zq}, []float64{10, 2, 3}, hist)
+	// (c) a longer operator registered after its prefix was used
+	hist += "; AddOperation(\"zqq\", 5, false, cat)"
+	eval("7 zq 2", []userOp{zq}, []float64{7, 2}, hist)
+	cat := func(a, b float64) float64 { return 10*a + b }
+	register("zqq", 5, false, cat)
+	zqq := userOp{"zqq", 5, false, cat}
+	eval("7 zqq 2", []userOp{zqq}, []float64{7, 2}, hist)
+	eval("7 zq 2", []userOp{zq}, []float64{7, 2}, hist)
+	eval("1 zqq 2 zq 3", []userOp{zqq, zq}, []float64{1, 2, 3}, hist)
+	return append(users, zq, zqq)
 }
 
 func registrations(users []userOp) string {
